@@ -692,7 +692,7 @@ func main() {
 	thorough := a.Tier == "thorough"
 	nW, nC, nBase := 450, 250, 5
 	if thorough {
-		nW, nC, nBase = 9000, 5000, 60
+		nW, nC, nBase = 6000, 4000, 45
 	}
 	// the engine fsyncs on every Sync/Close; C01 is not about durability, so the files live on
 	// tmpfs when there is one (10 ms per fsync on the cache disk would dominate the run)
